@@ -245,7 +245,7 @@ pub fn run() -> i32 {
                 let ok = out.as_ref().map(|o| o == &wire).unwrap_or(false);
                 st.eval(&("special-tag-enc", name, e.0), true, if ok { "bytes==libsodium" } else { "bytes-differ" });
                 if !ok {
-                    st.fail(Fail { check: "C01.product".into(), signature: format!("C01/{}/{}/special-tag", fam_name(e.1), e.0), what: format!("{} on the input whose genuine tag is {}: output differs from libsodium: {:?}", e.0, hx(&tag), out.map(|o| short(&o))), case: json!({"kind": "enc", "form": e.0, "keys": ks.json(), "msg": hx(&m)}) });
+                    st.fail(Fail { check: "C01.aead".into(), signature: format!("C01/{}/{}/special-tag", fam_name(e.1), e.0), what: format!("{} on the input whose genuine tag is {}: output differs from libsodium: {:?}", e.0, hx(&tag), out.map(|o| short(&o))), case: json!({"kind": "enc", "form": e.0, "keys": ks.json(), "msg": hx(&m)}) });
                 }
             }
             for o in open_all().iter().filter(|o| o.1 == Fam::Sb || (uses_pre(o.0) && !o.0.contains("beforenm"))) {
@@ -256,7 +256,7 @@ pub fn run() -> i32 {
                 let ok = matches!(&out.v, Verdict::Ok(g) if g.len() >= m.len() && g[..m.len()] == m[..]);
                 st.eval(&("special-tag-open", name, o.0), true, if ok { "opened==message" } else { "open-failed" });
                 if !ok {
-                    st.fail(Fail { check: "C01.product".into(), signature: format!("C01/{}/{}/special-tag/rejected-genuine", fam_name(o.1), o.0), what: format!("{} on the genuine box whose tag is {}: {:?}", o.0, hx(&tag), out.v), case: json!({"kind": "open", "form": o.0, "keys": ks.json(), "msg": hx(&m)}) });
+                    st.fail(Fail { check: "C01.aead".into(), signature: format!("C01/{}/{}/special-tag/rejected-genuine", fam_name(o.1), o.0), what: format!("{} on the genuine box whose tag is {}: {:?}", o.0, hx(&tag), out.v), case: json!({"kind": "open", "form": o.0, "keys": ks.json(), "msg": hx(&m)}) });
                 }
             }
         }
